@@ -58,7 +58,16 @@ def run(sim, params):
     shape = S.gen_shape(t)
     faults = S.gen_faults(t, shape, max_entries=3, allow_ancestors=True, max_count=2)
     res = S.execute(sim, shape, faults, max_retries=40, retry_delay=(0, 0, 2)[t.draw(3, "retry_delay")])
-    own, losses = check_executions(sim, res, shape, faults)
+    try:
+        own, losses = check_executions(sim, res, shape, faults)
+    except Violation as v:
+        # which kinds of exception entered recover()? Injected faults and missing inputs are
+        # WorkflowExecutionExceptions; any other type means a job tripped over state that an overlapping
+        # recovery changed under it (C19's subject) before the unjustified re-execution happened
+        # (the first such type is the trigger, later ones are consequences; probes keep insertion order)
+        unexpected = [k.split(":", 1)[1] for k in sim.probes if k.startswith("recover_unexpected:")]
+        v.signature += (":after_unexpected_exception_in_recover:" + unexpected[0]) if unexpected else ":workflow_execution_exceptions_only"
+        raise
     if res.status == "ok":
         for job in S.jobs_of(shape):
             if not losses.get(job) and res.ctl.execs.get(job, 0) > 1 + own.get(job, 0):
